@@ -38,6 +38,31 @@ static size_t count_dir(const char *d)
 	return n;
 }
 
+/* a second merge function whose result is never longer and usually shorter than its operands: the smaller operand (own comparator).  Commutative and
+ * associative, so the expected value of a key is the minimum of everything added for it, whatever the chunking. */
+static void min_merge_cb(void *clos, const uint8_t *key, size_t lk, const uint8_t *v0, size_t l0, const uint8_t *v1, size_t l1, uint8_t **mv, size_t *lmv)
+{
+	(void)clos; (void)key; (void)lk;
+	int c = key_cmp(v0, l0, v1, l1);
+	const uint8_t *w = c <= 0 ? v0 : v1; size_t lw = c <= 0 ? l0 : l1;
+	*mv = malloc(lw ? lw : 1); if (lw) memcpy(*mv, w, lw); *lmv = lw;
+}
+/* trampoline: optionally uses 640 KiB of stack before calling the real merge function (a callback may; it runs on the caller's thread without a pool
+ * and on a pool worker with one) */
+typedef struct { void (*fn)(void *, const uint8_t *, size_t, const uint8_t *, size_t, const uint8_t *, size_t, uint8_t **, size_t *); void *clos; int hungry; } tramp_t;
+static __attribute__((noinline)) void tramp_hungry(tramp_t *t, const uint8_t *key, size_t lk, const uint8_t *v0, size_t l0, const uint8_t *v1, size_t l1, uint8_t **mv, size_t *lmv)
+{
+	volatile char pad[640 * 1024];
+	pad[0] = 1; pad[sizeof pad / 2] = 2; pad[sizeof pad - 1] = 3;
+	t->fn(t->clos, key, lk, v0, l0, v1, l1, mv, lmv);
+	if (pad[0] + pad[sizeof pad - 1] != 4) abort();
+}
+static void tramp_cb(void *clos, const uint8_t *key, size_t lk, const uint8_t *v0, size_t l0, const uint8_t *v1, size_t l1, uint8_t **mv, size_t *lmv)
+{
+	tramp_t *t = clos;
+	if (t->hungry) tramp_hungry(t, key, lk, v0, l0, v1, l1, mv, lmv); else t->fn(t->clos, key, lk, v0, l0, v1, l1, mv, lmv);
+}
+
 static const char *ORDER[] = {"random", "sorted", "reverse", "all-equal-keys", "dups-adjacent", "dups-spread"};
 
 static void case_c06(const args_t *a, long c, rng_t *r)
@@ -51,6 +76,7 @@ static void case_c06(const args_t *a, long c, rng_t *r)
 	model_t uni; gen_model(r, &sh, U, rndp(r, 300), &uni); shape_free(&sh);
 	if (uni.n == 0) model_push(&uni, (const uint8_t *)"k", 1, (const uint8_t *)"", 0);
 	model_t adds; model_init(&adds);          /* in the order added */
+	const int minmode = rndn(r, 5) == 0;       /* values are arbitrary byte strings of 0..40 bytes, merge function = smaller operand */
 	for (size_t i = 0; i < n; i++) {
 		size_t ki;
 		switch (order) {
@@ -60,17 +86,25 @@ static void case_c06(const args_t *a, long c, rng_t *r)
 		case 5: ki = i % uni.n; break;
 		default: ki = rndn(r, (uint32_t)uni.n); break;
 		}
-		bs_t v = ids_value(pick_nids(r, 0), (uint32_t)ki);
+		bs_t v;
+		if (minmode) { v.n = rndn(r, 41); v.p = xmalloc(v.n ? v.n : 1); for (size_t j = 0; j < v.n; j++) v.p[j] = rndn(r, 3) ? (uint8_t)('a' + rndn(r, 4)) : (uint8_t)rnd64(r); }
+		else v = ids_value(pick_nids(r, 0), (uint32_t)ki);
 		model_push(&adds, uni.e[ki].k.p, uni.e[ki].k.n, v.p, v.n);
 		free(v.p);
 	}
-	/* expected: distinct keys ascending, value = union of all ids added for the key */
+	/* expected: distinct keys ascending, value = union of all ids added for the key (minmode: the smallest value added for the key) */
 	model_t flat; model_init(&flat);
 	for (size_t i = 0; i < adds.n; i++) model_push(&flat, adds.e[i].k.p, adds.e[i].k.n, adds.e[i].v.p, adds.e[i].v.n);
 	if (flat.n > 1) qsort(flat.e, flat.n, sizeof(ent_t), flat_cmp);
 	model_t want; model_init(&want);
 	for (size_t i = 0; i < flat.n;) {
 		size_t j = i; uint8_t *acc = NULL; size_t la = 0;
+		if (minmode) {
+			size_t best = i;
+			while (j < flat.n && key_cmp(flat.e[j].k.p, flat.e[j].k.n, flat.e[i].k.p, flat.e[i].k.n) == 0) { if (key_cmp(flat.e[j].v.p, flat.e[j].v.n, flat.e[best].v.p, flat.e[best].v.n) < 0) best = j; j++; }
+			model_push(&want, flat.e[i].k.p, flat.e[i].k.n, flat.e[best].v.p, flat.e[best].v.n); i = j;
+			continue;
+		}
 		while (j < flat.n && key_cmp(flat.e[j].k.p, flat.e[j].k.n, flat.e[i].k.p, flat.e[i].k.n) == 0) { uint8_t *o; size_t lo; ms_union(acc, la, flat.e[j].v.p, flat.e[j].v.n, &o, &lo); free(acc); acc = o; la = lo; j++; }
 		model_push(&want, flat.e[i].k.p, flat.e[i].k.n, acc, la); free(acc); i = j;
 	}
@@ -92,11 +126,17 @@ static void case_c06(const args_t *a, long c, rng_t *r)
 	if (c % 2) snprintf(tdir, sizeof tdir, "%s/sort-%ld", a->workdir, c);
 	else { snprintf(tdir, sizeof tdir, "%s/sort %%%%d 100%%%% %%s-%ld", a->workdir, c); STAT("c06.temp_dir_name_with_percent_signs"); }   /* a directory name is data, never a format string */
 	mkdir(tdir, 0700);
+	if (c % 5 == 3) {
+		/* a temp directory whose path is 300..420 bytes long (every component short): legal up to PATH_MAX */
+		size_t want_len = 300 + rndn(r, 120), l = strlen(tdir);
+		while (l + 42 < sizeof tdir && l < want_len) { memcpy(tdir + l, "/nested-directory-with-a-forty-byte-name", 41); l += 40; tdir[l] = 0; mkdir(tdir, 0700); }
+		STAT("c06.temp_dir_path_longer_than_300_bytes");
+	}
 	pthread_mutex_lock(&mk_mu); snprintf(mk_expect_dir, sizeof mk_expect_dir, "%s", tdir); mk_count = 0; mk_outside = 0; pthread_mutex_unlock(&mk_mu);
 	mclos_t mc; memset(&mc, 0, sizeof mc); mc.universe = &uni;
 	/* failing merge function (only where the sorter can report it: no worker threads): if no call reports failure, nothing may be missing */
 	int failing = 0; size_t fail_want = 0;
-	if (poolsz > 0 && adds.n > want.n && rndn(r, 25) == 0) {
+	if (!minmode && poolsz > 0 && adds.n > want.n && rndn(r, 25) == 0) {
 		/* a pooled sorter cannot report a failed chunk through add(): on the unchanged code iteration then stops the process (assert).
 		   Run it in a child: stopping loudly, reporting failure, or a complete and correct output are fine; a silently incomplete output is not. */
 		size_t cand = 0, nc = 0;
@@ -134,7 +174,7 @@ static void case_c06(const args_t *a, long c, rng_t *r)
 			STAT("c06.failing_merge_pooled.cases");
 		}
 	}
-	if (poolsz <= 0 && adds.n > want.n && rndn(r, 12) == 0) {
+	if (!minmode && poolsz <= 0 && adds.n > want.n && rndn(r, 12) == 0) {
 		size_t cand = 0, nc = 0;
 		for (size_t i = 0; i + 1 < flat.n; i++) if (key_cmp(flat.e[i].k.p, flat.e[i].k.n, flat.e[i + 1].k.p, flat.e[i + 1].k.n) == 0 && rndn(r, (uint32_t)++nc) == 0) cand = i;
 		if (nc) { failing = 1; mc.have_fail = 1; mc.fail_key = flat.e[cand].k.p; mc.fail_len = flat.e[cand].k.n; fail_want = model_lb(&want, mc.fail_key, mc.fail_len); outmode = 0; }
@@ -144,7 +184,10 @@ static void case_c06(const args_t *a, long c, rng_t *r)
 	mtbl_sorter_options_set_temp_dir(so, tdir);
 	mtbl_sorter_options_set_max_memory(so, request0 ? 0 : limit);
 	if (request0) STAT("c06.max_memory_request_0");
-	mtbl_sorter_options_set_merge_func(so, ms_merge_cb, &mc);
+	tramp_t tr = {minmode ? min_merge_cb : ms_merge_cb, &mc, rndn(r, 8) == 0};
+	mtbl_sorter_options_set_merge_func(so, tramp_cb, &tr);
+	if (minmode) STAT("c06.merge_function.smaller_operand"); else STAT("c06.merge_function.id_union");
+	if (tr.hungry) STAT("c06.merge_function_uses_640KiB_of_stack");
 	if (pool) mtbl_sorter_options_set_threadpool(so, pool);
 	struct mtbl_sorter *s = mtbl_sorter_init(so);
 	mtbl_sorter_options_destroy(&so);
